@@ -33,20 +33,21 @@ type QuestionMarkExpr struct{}
 func (e *QuestionMarkExpr) Evaluate(engine *Engine, input interface{}, args []*Statement) (interface{}, error) {
 	in := reflect.TypeOf(input)
 
-	if in.Kind() == reflect.Slice {
-		value := reflect.Zero(TypeOfSliceElement(input)).Interface()
-
-		return e.Evaluate(engine, value, nil)
+	// The choices for a slice are those of its elements. The element type has
+	// to be used directly because a zero element (such as a nil interface)
+	// would not carry its type.
+	for in != nil && in.Kind() == reflect.Slice {
+		in = in.Elem()
 	}
 
-	if in.Kind() != reflect.Ptr {
-		in = reflect.New(in).Type()
+	if in != nil && in.Kind() != reflect.Ptr && in.Kind() != reflect.Interface {
+		in = reflect.PtrTo(in)
 	}
 
 	options := []string{}
 
 	// Accessors
-	for i := 0; i < in.NumMethod(); i++ {
+	for i := 0; in != nil && i < in.NumMethod(); i++ {
 		methodName := "." + in.Method(i).Name
 		options = append(options, methodName)
 	}
